@@ -48,6 +48,10 @@ fn probe_one<T>(value: T, fill: u8) -> (usize, usize, usize) {
 }
 
 fn offsets<H: HashChain>(type_name: &str, fill: u8) -> Option<(usize, Vec<usize>, Vec<usize>)> {
+    if type_name == "SeedFromArray" {
+        // the public constructor: the value holds all 32 bytes of the caller's array, whatever the hash output size
+        return Some(probe_offsets(hbs_lms::Seed::<H>::from([fill; 32]), fill));
+    }
     Some(match populated_secret::<H>(type_name, fill)? {
         SecretValue::Seed(v) => probe_offsets(v, fill),
         SecretValue::SeedAndId(v) => probe_offsets(v, fill),
